@@ -166,6 +166,23 @@ func gen(r *prng.R, f proto.Flags, emit func(proto.Case)) {
 			}
 		}
 		rec(nil, 5)
+		// ... and every sequence of length exactly 6 over a 5-letter alphabet
+		alpha = []string{"lookup x=0", "update d=1 ok=1", "advance d=1",
+			fmt.Sprintf("advance d=%d", tickNs), fmt.Sprintf("advance d=%d", ttlNs)}
+		var rec6 func(prefix []string)
+		rec6 = func(prefix []string) {
+			if len(prefix) == 6 {
+				ops := append([]string{cfgLine(0)}, prefix...)
+				ops = append(ops, "lookup x=0", "lookup x=1", "stat")
+				id++
+				cases = append(cases, proto.Case{ID: fmt.Sprintf("e%d", id), Ops: ops})
+				return
+			}
+			for _, a := range alpha {
+				rec6(append(append([]string{}, prefix...), a))
+			}
+		}
+		rec6(nil)
 	}
 	// execute in chunks on parallel workers, then hand the cases to the framework in order
 	const chunk = 600
